@@ -1,261 +1,570 @@
-"""Spike: translate loop-free integer Python kernels to Lean 4 (typed, Except monad)."""
-import ast, inspect, textwrap, sys, importlib
+"""py2lean: translate loop-free integer Python kernels of sarpy to Lean 4.
 
-INT, OPT, BOOL, SLICE, TUP, NONE = 'Int', 'Option Int', 'Bool', 'PySlice', 'Tuple', 'None'
+The translation is *typed*: every Python value is given one of the Lean types below and
+every operation that Python would reject at run time (arithmetic on None, division by
+zero) becomes an `Except.error` carrying the Python exception class name.  The output is
+a `do` block in `Except String`, which Lean elaborates to pure, total, kernel-reducible
+code.  Anything outside the supported subset raises `Unsupported` naming the construct;
+callers must fail closed on that.
 
-class Unsupported(Exception): pass
-class Restart(Exception): pass
+Fixed readings of float idioms (trusted base; operands are image-scale integers < 2^53):
+  int(numpy.floor(a / b))  -> floor division      int(numpy.ceil(a / b)) -> ceiling division
+  int(a / b), int(a / float(b)) -> truncating division
+"""
+import ast
+import hashlib
+import inspect
+import textwrap
+
+INT, OPT, BOOL, SLICE, ITEM, NONE = 'Int', 'Option Int', 'Bool', 'PySlice', 'PyItem', 'None'
+
+
+class Unsupported(Exception):
+    pass
+
+
+LEAN_KEYWORDS = {'include', 'end', 'from', 'at', 'in', 'then', 'else', 'do', 'open', 'section', 'namespace', 'variable',
+                 'fun', 'let', 'have', 'show', 'match', 'with', 'where', 'def', 'theorem', 'structure', 'class',
+                 'instance', 'if', 'for', 'return', 'mut', 'by', 'local', 'private', 'macro', 'syntax', 'universe',
+                 'export', 'import', 'prefix', 'infix', 'notation', 'using', 'calc', 'Type', 'Prop', 'Sort'}
+
+
+def mangle(n):
+    return n + '_' if n in LEAN_KEYWORDS else n
+
+
+class Restart(Exception):
+    pass
+
 
 class Tr:
-    def __init__(self, fn, sig, name):
-        self.fn=fn; self.sig=sig; self.name=name
-        self.src=textwrap.dedent(inspect.getsource(fn))
-        self.tree=ast.parse(self.src).body[0]
-        self.counter=0
-        self.vartypes={}
-    def fresh(self,p='t'):
-        self.counter+=1; return f'{p}_{self.counter}'
-    # ---- expressions: return (lean_expr_string, type, prelude_lines) ; expr is pure value after prelude binds
+    def __init__(self, fn, sig, name, rettype, known=None, src=None):
+        """fn: python function; sig: {param: type}; name: Lean name; rettype: Lean-side type tag;
+        known: {python callee name: (lean name, [param types], ret type)} for calls to other kernels."""
+        self.fn = fn
+        self.sig = sig
+        self.name = name
+        self.rettype = rettype
+        self.known = dict(known or {})
+        self.src = src if src is not None else textwrap.dedent(inspect.getsource(fn))
+        self.tree = ast.parse(self.src).body[0]
+        self.counter = 0
+        self.vartypes = {}
+        self.aux = []  # auxiliary top-level defs (closures)
+        self.narrowed = set()
+
+    def fresh(self, p='t'):
+        self.counter += 1
+        return f'{p}_{self.counter}'
+
+    # ---------------------------------------------------------------- expressions
     def as_int(self, e, env, pre):
-        s,t=self.expr(e,env,pre)
-        if t==INT: return s
-        if t==OPT:
-            v=self.fresh('v'); pre.append(f'let {v} ← getI {s}'); return v
-        raise Unsupported(f'need int got {t} for {ast.dump(e)}')
-    def as_opt(self,e,env,pre):
-        s,t=self.expr(e,env,pre)
-        if t==OPT: return s
-        if t==INT: return f'(some {s})'
-        if t==NONE: return 'none'
-        raise Unsupported(f'need opt got {t}')
-    def as_bool(self,e,env,pre):
-        s,t=self.expr(e,env,pre)
-        if t==BOOL: return s
-        raise Unsupported(f'need bool got {t}: {ast.dump(e)}')
-    def expr(self,e,env,pre):
-        if isinstance(e,ast.Constant):
-            if e.value is None: return 'none',NONE
-            if isinstance(e.value,bool): return ('true' if e.value else 'false'),BOOL
-            if isinstance(e.value,int): return f'({e.value} : Int)',INT
-            raise Unsupported(f'const {e.value!r}')
-        if isinstance(e,ast.Name):
-            if e.id in env: return env[e.id]
-            raise Unsupported(f'name {e.id}')
-        if isinstance(e,ast.Attribute) and e.attr in ('start','stop','step'):
-            s,t=self.expr(e.value,env,pre)
-            if t!=SLICE: raise Unsupported('attr on non-slice')
-            return f'{s}.{e.attr}',OPT
-        if isinstance(e,ast.UnaryOp):
-            if isinstance(e.op,ast.USub): return f'(-{self.as_int(e.operand,env,pre)})',INT
-            if isinstance(e.op,ast.Not): return f'(!{self.as_bool(e.operand,env,pre)})',BOOL
-        if isinstance(e,ast.BinOp):
-            if isinstance(e.op,(ast.Add,ast.Sub,ast.Mult)):
-                a=self.as_int(e.left,env,pre); b=self.as_int(e.right,env,pre)
-                op={ast.Add:'+',ast.Sub:'-',ast.Mult:'*'}[type(e.op)]
-                return f'({a} {op} {b})',INT
-            raise Unsupported(f'binop {ast.dump(e.op)} outside int()/floor/ceil')
-        if isinstance(e,ast.BoolOp):
-            # short-circuit: operand k is only evaluated under the guard of operands < k
-            parts=[]
-            for v in e.values:
-                p=[]; s=self.as_bool(v,env,p); parts.append((p,s))
-            isand=isinstance(e.op,ast.And)
-            def mk(i,ind):
-                p,s=parts[i]
-                body=[ind+l for l in p]
-                if i==len(parts)-1:
-                    return body+[ind+f'pure {s}']
-                inner=mk(i+1,ind+'  ')
-                if isand:
-                    return body+[ind+f'if {s} then do']+inner+[ind+'else pure false']
-                else:
-                    return body+[ind+f'if {s} then pure true else do']+inner
-            v=self.fresh('b')
-            blk=mk(0,'    ')
-            pre.append(f'let {v} ← (do\n'+'\n'.join(blk)+')')
-            return v,BOOL
-        if isinstance(e,ast.Compare):
-            items=[e.left]+e.comparators; res=[]
-            for l,op,r in zip(items,e.ops,items[1:]):
-                if isinstance(op,(ast.Is,ast.IsNot)) and isinstance(r,ast.Constant) and r.value is None:
-                    s,t=self.expr(l,env,pre)
-                    if t==OPT: res.append(f'{s}.isNone' if isinstance(op,ast.Is) else f'{s}.isSome')
-                    elif t==INT: res.append('false' if isinstance(op,ast.Is) else 'true')
-                    elif t==NONE: res.append('true' if isinstance(op,ast.Is) else 'false')
-                    else: raise Unsupported('is None on '+t)
-                    continue
-                if isinstance(op,(ast.In,ast.NotIn)) and isinstance(r,(ast.List,ast.Tuple)):
-                    a=self.as_int(l,env,pre); alts=' || '.join(f'{a} == {self.as_int(x,env,pre)}' for x in r.elts)
-                    res.append(f'({alts})' if isinstance(op,ast.In) else f'(!({alts}))'); continue
-                a=self.as_int(l,env,pre); b=self.as_int(r,env,pre)
-                o={ast.Lt:'<',ast.LtE:'<=',ast.Gt:'>',ast.GtE:'>=',ast.Eq:'==',ast.NotEq:'!='}[type(op)]
-                res.append(f'decide ({a} {o} {b})' if o in('<','<=','>','>=') else f'({a} {o} {b})')
-            return '('+' && '.join(res)+')',BOOL
-        if isinstance(e,ast.IfExp):
-            c=self.as_bool(e.test,env,pre)
-            p1=[];p2=[]
-            s1,t1=self.expr(e.body,env,p1); s2,t2=self.expr(e.orelse,env,p2)
-            if t1==t2==INT: jt=INT
-            elif {t1,t2}<= {INT,OPT,NONE}: jt=OPT; s1=self.coerce(s1,t1,OPT); s2=self.coerce(s2,t2,OPT)
-            else: raise Unsupported('ifexp types')
-            def blk(p,s): return f'pure {s}' if not p else 'do\n'+'\n'.join('      '+l for l in p)+f'\n      pure {s}'
-            v=self.fresh('c'); pre.append(f'let {v} ← (if {c} then {blk(p1,s1)} else {blk(p2,s2)})')
-            return v,jt
-        if isinstance(e,ast.Call):
-            f=self.callname(e.func)
-            if f=='slice' and len(e.args)==3:
-                a,b,c=(self.as_opt(x,env,pre) for x in e.args)
-                return f'(PySlice.mk {a} {b} {c})',SLICE
-            if f in('min','max') and len(e.args)==2:
-                a=self.as_int(e.args[0],env,pre); b=self.as_int(e.args[1],env,pre); return f'({f} {a} {b})',INT
-            if f=='abs': return f'(Int.natAbs {self.as_int(e.args[0],env,pre)} : Int)',INT
-            if f=='numpy.sign': return f'(Int.sign {self.as_int(e.args[0],env,pre)})',INT
-            if f=='int' and len(e.args)==1:
-                inner=e.args[0]
-                # int(numpy.floor(a/b)) | int(numpy.ceil(a/b)) | int(a/b) | int(a/float(b)) | int(floor(..) + k)
-                return self.intcast(inner,env,pre),INT
-            if f=='_reverse_slice':
-                a,t=self.expr(e.args[0],env,pre); v=self.fresh('r'); pre.append(f'let {v} ← reverse_slice {a}'); return v,SLICE
-            raise Unsupported(f'call {f}')
-        raise Unsupported(ast.dump(e))
-    def coerce(self,s,t,to):
-        if t==to: return s
-        if to==OPT and t==INT: return f'(some {s})'
-        if to==OPT and t==NONE: return 'none'
-        raise Unsupported('coerce')
-    def callname(self,f):
-        if isinstance(f,ast.Name): return f.id
-        if isinstance(f,ast.Attribute) and isinstance(f.value,ast.Name): return f'{f.value.id}.{f.attr}'
-        raise Unsupported('callee')
-    def divparts(self,e,env,pre):
-        if isinstance(e,ast.BinOp) and isinstance(e.op,ast.Div):
-            den=e.right
-            if isinstance(den,ast.Call) and self.callname(den.func)=='float': den=den.args[0]
-            return self.as_int(e.left,env,pre), self.as_int(den,env,pre)
-        raise Unsupported('expected a/b inside int()')
-    def intcast(self,inner,env,pre):
-        if isinstance(inner,ast.BinOp) and isinstance(inner.op,(ast.Add,ast.Sub)):
-            # int(floor(x) + k)
-            l=self.intcast(inner.left,env,pre); r=self.as_int(inner.right,env,pre)
-            return f'({l} {"+" if isinstance(inner.op,ast.Add) else "-"} {r})'
-        if isinstance(inner,ast.Call) and self.callname(inner.func) in('numpy.floor','numpy.ceil'):
-            a,b=self.divparts(inner.args[0],env,pre)
-            v=self.fresh('q'); pre.append(f'let {v} ← {"floorDiv" if "floor" in self.callname(inner.func) else "ceilDiv"} {a} {b}')
+        s, t = self.expr(e, env, pre)
+        if t == INT:
+            return s
+        if t == OPT:
+            v = self.fresh('v')
+            pre.append(f'let {v} ← getI {s}')
             return v
-        a,b=self.divparts(inner,env,pre)
-        v=self.fresh('q'); pre.append(f'let {v} ← truncDiv {a} {b}'); return v
-    # ---- statements -> list of lines, given continuation handled by caller. We compile to a do-block with early return via Except + explicit structure:
-    def block(self,stmts,env,ind):
-        """returns (lines, env_out, returns_always)"""
-        lines=[]; env=dict(env)
-        for i,st in enumerate(stmts):
-            if isinstance(st,ast.Expr) and isinstance(st.value,ast.Constant): continue  # docstring
-            if isinstance(st,ast.Return):
-                pre=[]; s=self.retval(st.value,env,pre)
-                lines+= [ind+l for l in pre]+[ind+f'return {s}']; return lines,env,True
-            if isinstance(st,ast.Raise):
-                lines.append(ind+f'throw "{self.excname(st)}"'); return lines,env,True
-            if isinstance(st,ast.Assign) and len(st.targets)==1 and isinstance(st.targets[0],ast.Name):
-                pre=[]; s,t=self.expr(st.value,env,pre); n=st.targets[0].id
-                want=self.vartypes.get(n,t)
-                if want!=t:
-                    if want==OPT and t in (INT,NONE): s=self.coerce(s,t,OPT); t=OPT
-                    elif {want,t}<={INT,OPT,NONE}:
-                        self.vartypes[n]=OPT; raise Restart()
-                    else: raise Unsupported(f'retype {n}: {want} vs {t}')
-                self.vartypes.setdefault(n,t)
-                lines+= [ind+l for l in pre]+[ind+(f'let mut {n} : {t} := {s}' if n not in env else f'{n} := {s}')]
-                env[n]=(n,t); continue
-            if isinstance(st,ast.If):
-                pre=[]; c=self.as_bool(st.test,env,pre)
-                # pre-declare variables assigned in branches but not yet in env, with joined type
-                l1,e1,r1=self.block(st.body,env,ind+'  ')
-                l2,e2,r2=self.block(st.orelse,env,ind+'  ') if st.orelse else ([],env,False)
-                new=[k for k in list(e1)+list(e2) if k not in env]
-                decl=[]
-                for k in dict.fromkeys(new):
-                    t1=e1.get(k,(None,None))[1]; t2=e2.get(k,(None,None))[1]
-                    ts={t for t in (t1,t2) if t}
-                    jt=self.vartypes.get(k) or (INT if ts=={INT} else (OPT if ts<= {INT,OPT,NONE} else (SLICE if ts=={SLICE} else None)))
-                    if jt is None: raise Unsupported(f'join {k} {ts}')
-                    default={'Int':'0','Option Int':'none','PySlice':'default'}[jt]
-                    decl.append(ind+f'let mut {k} : {jt} := {default}')
-                    env[k]=(k,jt)
-                if decl:
-                    l1,e1,r1=self.block(st.body,env,ind+'  ')
-                    l2,e2,r2=self.block(st.orelse,env,ind+'  ') if st.orelse else ([],env,False)
-                lines+= [ind+l for l in pre]+decl
-                lines.append(ind+f'if {c} then'); lines+= l1 or [ind+'  pure ()']
-                if st.orelse:
-                    lines.append(ind+'else'); lines+= l2 or [ind+'  pure ()']
-                for k in env:
-                    ta=e1.get(k,env[k])[1]; tb=e2.get(k,env[k])[1]
-                    if ta!=env[k][1] or tb!=env[k][1]:
+        if t == NONE:
+            v = self.fresh('v')
+            pre.append(f'let {v} ← getI none')
+            return v
+        raise Unsupported(f'need int got {t} for {ast.dump(e)[:80]}')
+
+    def as_opt(self, e, env, pre):
+        s, t = self.expr(e, env, pre)
+        return self.coerce(s, t, OPT)
+
+    def as_bool(self, e, env, pre):
+        s, t = self.expr(e, env, pre)
+        if t == BOOL:
+            return s
+        raise Unsupported(f'need bool got {t}: {ast.dump(e)[:80]}')
+
+    def coerce(self, s, t, to):
+        if t == to:
+            return s
+        if to == OPT and t == INT:
+            return f'(some {s})'
+        if to == OPT and t == NONE:
+            return 'none'
+        raise Unsupported(f'coerce {t} -> {to}')
+
+    def callname(self, f):
+        if isinstance(f, ast.Name):
+            return f.id
+        if isinstance(f, ast.Attribute) and isinstance(f.value, ast.Name):
+            return f'{f.value.id}.{f.attr}'
+        if isinstance(f, ast.Attribute) and isinstance(f.value, ast.Constant) and f.attr == 'format':
+            return 'str.format'
+        raise Unsupported('callee ' + ast.dump(f)[:60])
+
+    def expr(self, e, env, pre):
+        if isinstance(e, ast.Constant):
+            if e.value is None:
+                return 'none', NONE
+            if isinstance(e.value, bool):
+                return ('true' if e.value else 'false'), BOOL
+            if isinstance(e.value, int):
+                return f'({e.value} : Int)', INT
+            raise Unsupported(f'const {e.value!r}')
+        if isinstance(e, ast.Name):
+            if e.id in env:
+                return env[e.id]
+            raise Unsupported(f'name {e.id}')
+        if isinstance(e, ast.Attribute) and e.attr in ('start', 'stop', 'step'):
+            s, t = self.expr(e.value, env, pre)
+            if t != SLICE:
+                raise Unsupported('attr on non-slice')
+            return f'{s}.{e.attr}', OPT
+        if isinstance(e, ast.UnaryOp):
+            if isinstance(e.op, ast.USub):
+                return f'(-{self.as_int(e.operand, env, pre)})', INT
+            if isinstance(e.op, ast.Not):
+                return f'(!{self.as_bool(e.operand, env, pre)})', BOOL
+        if isinstance(e, ast.BinOp):
+            if isinstance(e.op, (ast.Add, ast.Sub, ast.Mult)):
+                a = self.as_int(e.left, env, pre)
+                b = self.as_int(e.right, env, pre)
+                op = {ast.Add: '+', ast.Sub: '-', ast.Mult: '*'}[type(e.op)]
+                return f'({a} {op} {b})', INT
+            if isinstance(e.op, ast.FloorDiv):
+                a = self.as_int(e.left, env, pre)
+                b = self.as_int(e.right, env, pre)
+                v = self.fresh('q')
+                pre.append(f'let {v} ← floorDiv {a} {b}')
+                return v, INT
+            if isinstance(e.op, ast.Mod):
+                a = self.as_int(e.left, env, pre)
+                b = self.as_int(e.right, env, pre)
+                v = self.fresh('q')
+                pre.append(f'let {v} ← pyMod {a} {b}')
+                return v, INT
+            raise Unsupported(f'binop {type(e.op).__name__} outside int()/floor/ceil')
+        if isinstance(e, ast.BoolOp):
+            parts = []
+            for v in e.values:
+                p = []
+                s = self.as_bool(v, env, p)
+                parts.append((p, s))
+            isand = isinstance(e.op, ast.And)
+            if all(not p for p, _ in parts):
+                op = ' && ' if isand else ' || '
+                return '(' + op.join(s for _, s in parts) + ')', BOOL
+
+            def mk(i, ind):
+                p, s = parts[i]
+                body = [ind + l for l in p]
+                if i == len(parts) - 1:
+                    return body + [ind + f'pure {s}']
+                inner = mk(i + 1, ind + '  ')
+                if isand:
+                    return body + [ind + f'if {s} then do'] + inner + [ind + 'else pure false']
+                return body + [ind + f'if {s} then pure true else do'] + inner
+            v = self.fresh('b')
+            blk = mk(0, '    ')
+            pre.append(f'let {v} ← (do\n' + '\n'.join(blk) + ')')
+            return v, BOOL
+        if isinstance(e, ast.Compare):
+            items = [e.left] + e.comparators
+            res = []
+            for l, op, r in zip(items, e.ops, items[1:]):
+                if isinstance(op, (ast.Is, ast.IsNot)) and isinstance(r, ast.Constant) and r.value is None:
+                    s, t = self.expr(l, env, pre)
+                    pos = isinstance(op, ast.Is)
+                    if t == OPT:
+                        res.append(f'{s}.isNone' if pos else f'{s}.isSome')
+                    elif t == ITEM:
+                        res.append(f'{s}.isNone' if pos else f'(!{s}.isNone)')
+                    elif t in (INT, SLICE, BOOL):
+                        res.append('false' if pos else 'true')
+                    elif t == NONE:
+                        res.append('true' if pos else 'false')
+                    else:
+                        raise Unsupported('is None on ' + t)
+                    continue
+                if isinstance(op, (ast.In, ast.NotIn)) and isinstance(r, (ast.List, ast.Tuple)):
+                    a = self.as_int(l, env, pre)
+                    alts = ' || '.join(f'{a} == {self.as_int(x, env, pre)}' for x in r.elts)
+                    res.append(f'({alts})' if isinstance(op, ast.In) else f'(!({alts}))')
+                    continue
+                a = self.as_int(l, env, pre)
+                b = self.as_int(r, env, pre)
+                o = {ast.Lt: '<', ast.LtE: '<=', ast.Gt: '>', ast.GtE: '>=', ast.Eq: '==', ast.NotEq: '!='}[type(op)]
+                res.append(f'decide ({a} {o} {b})' if o in ('<', '<=', '>', '>=') else f'({a} {o} {b})')
+            return '(' + ' && '.join(res) + ')', BOOL
+        if isinstance(e, ast.IfExp):
+            c = self.as_bool(e.test, env, pre)
+            p1 = []
+            p2 = []
+            s1, t1 = self.expr(e.body, env, p1)
+            s2, t2 = self.expr(e.orelse, env, p2)
+            if t1 == t2 == INT:
+                jt = INT
+            elif {t1, t2} <= {INT, OPT, NONE}:
+                jt = OPT
+                s1 = self.coerce(s1, t1, OPT)
+                s2 = self.coerce(s2, t2, OPT)
+            else:
+                raise Unsupported('ifexp types')
+
+            def blk(p, s):
+                if not p:
+                    return f'pure {s}'
+                return 'do\n' + '\n'.join('      ' + l for l in p) + f'\n      pure {s}'
+            v = self.fresh('c')
+            pre.append(f'let {v} ← (if {c} then {blk(p1, s1)} else {blk(p2, s2)})')
+            return v, jt
+        if isinstance(e, ast.Call):
+            f = self.callname(e.func)
+            if f == 'slice' and len(e.args) == 3:
+                a, b, c = (self.as_opt(x, env, pre) for x in e.args)
+                return f'(PySlice.mk {a} {b} {c})', SLICE
+            if f in ('min', 'max') and len(e.args) == 2:
+                a = self.as_int(e.args[0], env, pre)
+                b = self.as_int(e.args[1], env, pre)
+                return f'({f} {a} {b})', INT
+            if f == 'abs':
+                return f'(Int.natAbs {self.as_int(e.args[0], env, pre)} : Int)', INT
+            if f == 'numpy.sign':
+                return f'(Int.sign {self.as_int(e.args[0], env, pre)})', INT
+            if f == 'int' and len(e.args) == 1:
+                return self.intcast(e.args[0], env, pre), INT
+            if f == 'isinstance' and len(e.args) == 2:
+                s, t = self.expr(e.args[0], env, pre)
+                cls = self.callname(e.args[1]) if not isinstance(e.args[1], ast.Tuple) else None
+                if t == INT and cls == 'int':
+                    return 'true', BOOL
+                if t == ITEM and cls == 'int':
+                    return f'{s}.isInt', BOOL
+                if t == ITEM and cls == 'slice':
+                    return f'{s}.isSlice', BOOL
+                if t == ITEM and cls == 'Sequence':
+                    # tuple-form items are converted to slices by the caller-side model; not modelled here
+                    return 'false', BOOL
+                raise Unsupported(f'isinstance({t}, {cls})')
+            if f in self.known:
+                lname, ptypes, rt = self.known[f]
+                args = []
+                for x, pt in zip(e.args, ptypes):
+                    if pt == INT:
+                        args.append(self.as_int(x, env, pre))
+                    elif pt == OPT:
+                        args.append(self.as_opt(x, env, pre))
+                    else:
+                        s, t = self.expr(x, env, pre)
+                        if t != pt:
+                            raise Unsupported(f'arg type {t} vs {pt} in call {f}')
+                        args.append(s)
+                v = self.fresh('r')
+                pre.append(f'let {v} ← {lname} ' + ' '.join(args))
+                return v, rt
+            raise Unsupported(f'call {f}')
+        raise Unsupported(ast.dump(e)[:80])
+
+    def divparts(self, e, env, pre):
+        if isinstance(e, ast.BinOp) and isinstance(e.op, ast.Div):
+            den = e.right
+            if isinstance(den, ast.Call) and self.callname(den.func) == 'float':
+                den = den.args[0]
+            num = e.left
+            if isinstance(num, ast.Call) and self.callname(num.func) == 'float':
+                num = num.args[0]
+            return self.as_int(num, env, pre), self.as_int(den, env, pre)
+        raise Unsupported('expected a/b inside int()')
+
+    def intcast(self, inner, env, pre):
+        if isinstance(inner, ast.BinOp) and isinstance(inner.op, (ast.Add, ast.Sub)):
+            l = self.intcast(inner.left, env, pre)
+            r = self.as_int(inner.right, env, pre)
+            return f'({l} {"+" if isinstance(inner.op, ast.Add) else "-"} {r})'
+        if isinstance(inner, ast.Call) and self.callname(inner.func) in ('numpy.floor', 'numpy.ceil', 'math.floor', 'math.ceil'):
+            a, b = self.divparts(inner.args[0], env, pre)
+            v = self.fresh('q')
+            pre.append(f'let {v} ← {"floorDiv" if "floor" in self.callname(inner.func) else "ceilDiv"} {a} {b}')
+            return v
+        if isinstance(inner, ast.BinOp) and isinstance(inner.op, ast.Div):
+            a, b = self.divparts(inner, env, pre)
+            v = self.fresh('q')
+            pre.append(f'let {v} ← truncDiv {a} {b}')
+            return v
+        return self.as_int(inner, env, pre)
+
+    # ---------------------------------------------------------------- statements
+    def excname(self, st):
+        e = st.exc
+        if isinstance(e, ast.Call):
+            e = e.func
+        return e.id if isinstance(e, ast.Name) else 'Exception'
+
+    def item_match(self, st, env, ind):
+        """`if X is None / isinstance(X, int|slice)` on an ITEM variable -> pattern match binding a typed var."""
+        t = st.test
+        if isinstance(t, ast.Call) and isinstance(t.func, ast.Name) and t.func.id == 'isinstance' \
+                and isinstance(t.args[0], ast.Name) and env.get(t.args[0].id, (None, None))[1] == ITEM \
+                and isinstance(t.args[1], ast.Name) and t.args[1].id in ('int', 'slice'):
+            var = t.args[0].id
+            kind = t.args[1].id
+            return var, kind
+        return None
+
+    def assigned_names(self, stmts):
+        out = []
+        for st in stmts:
+            for n in ast.walk(st):
+                if isinstance(n, ast.Assign):
+                    for tg in n.targets:
+                        if isinstance(tg, ast.Name):
+                            out.append(tg.id)
+                elif isinstance(n, ast.AugAssign) and isinstance(n.target, ast.Name):
+                    out.append(n.target.id)
+        return out
+
+    # -- control-flow helpers (purely functional translation: no `let mut`, no join points) --
+    @staticmethod
+    def _always(stmts):
+        for st in stmts:
+            if isinstance(st, (ast.Return, ast.Raise)):
+                return True
+            if isinstance(st, ast.If) and st.orelse and Tr._always(st.body) and Tr._always(st.orelse):
+                return True
+        return False
+
+    @staticmethod
+    def _may(stmts):
+        return any(isinstance(n, (ast.Return, ast.Raise)) for st in stmts for n in ast.walk(st))
+
+    def block(self, stmts, env, ind):
+        """Translate a statement list that always terminates (return/raise) into do-block lines.
+        Assignments become shadowing `let`s; an `if` that falls through binds the tuple of variables
+        it may assign; an `if` that may return absorbs the rest of the list into both branches."""
+        lines = []
+        env = dict(env)
+        stmts = list(stmts)
+        while stmts:
+            st = stmts.pop(0)
+            if isinstance(st, ast.Expr) and isinstance(st.value, ast.Constant):
+                continue  # docstring
+            if isinstance(st, ast.Pass):
+                continue
+            if isinstance(st, ast.FunctionDef):
+                self.closure(st, env)
+                continue
+            if isinstance(st, ast.Return):
+                pre = []
+                s = self.retval(st.value, env, pre)
+                lines += [ind + l for l in pre] + [ind + f'return {s}']
+                return lines, env, True
+            if isinstance(st, ast.Raise):
+                lines.append(ind + f'throw "{self.excname(st)}"')
+                return lines, env, True
+            if isinstance(st, ast.AugAssign) and isinstance(st.target, ast.Name):
+                st = ast.Assign(targets=[st.target], value=ast.BinOp(left=ast.Name(id=st.target.id), op=st.op, right=st.value))
+            if isinstance(st, ast.Assign) and len(st.targets) == 1 and isinstance(st.targets[0], ast.Name):
+                pre = []
+                s, t = self.expr(st.value, env, pre)
+                pyn = st.targets[0].id
+                n = mangle(pyn)
+                if pyn in self.narrowed:
+                    self.narrowed.discard(pyn)
+                    n = self.fresh(n)
+                    lines += [ind + l for l in pre] + [ind + f'let {n} : {t} := {s}']
+                    env[pyn] = (n, t)
+                    continue
+                want = self.vartypes.get(n, t)
+                if pyn in env and env[pyn][1] != want and env[pyn][1] in (INT, OPT, NONE, ITEM):
+                    want = env[pyn][1] if env[pyn][1] != INT or t == INT else want
+                if want != t:
+                    if want == OPT and t in (INT, NONE):
+                        s = self.coerce(s, t, OPT)
+                        t = OPT
+                    elif {want, t} <= {INT, OPT, NONE}:
+                        self.vartypes[n] = OPT
+                        raise Restart()
+                    elif want == ITEM and t == SLICE:
+                        s = f'(PyItem.slice {s})'
+                        t = ITEM
+                    else:
+                        raise Unsupported(f'retype {n}: {want} vs {t}')
+                self.vartypes.setdefault(n, t)
+                lines += [ind + l for l in pre] + [ind + f'let {n} : {t} := {s}']
+                env[pyn] = (n, t)
+                continue
+            if isinstance(st, ast.If):
+                im = self.item_match(st, env, ind)
+                if im is not None:
+                    var, kind = im
+                    bound = self.fresh(var + ('_i' if kind == 'int' else '_s'))
+                    env1 = dict(env)
+                    env1[var] = (bound, INT if kind == 'int' else SLICE)
+                    self.narrowed.add(var)
+                    body = st.body if self._always(st.body) else st.body + stmts
+                    l1, _, r1 = self.block(body, env1, ind + '  ')
+                    self.narrowed.discard(var)
+                    if not r1:
+                        raise Unsupported('narrowed isinstance branch must terminate')
+                    l2, _, r2 = self.block((st.orelse or []) + stmts, env, ind + '  ')
+                    if not r2:
+                        raise Unsupported('statement list may fall off the end')
+                    lines.append(ind + f'if let PyItem.{kind} {bound} := {env[var][0]} then')
+                    lines += l1
+                    lines.append(ind + 'else')
+                    lines += l2
+                    return lines, env, True
+                pre = []
+                c = self.as_bool(st.test, env, pre)
+                if c == 'false' and not pre:
+                    # statically dead branch (e.g. isinstance(item, Sequence) for a PyItem)
+                    stmts = list(st.orelse or []) + stmts
+                    continue
+                if c == 'true' and not pre:
+                    stmts = list(st.body) + stmts
+                    continue
+                lines += [ind + l for l in pre]
+                a1 = self._always(st.body)
+                a2 = bool(st.orelse) and self._always(st.orelse)
+                if a1 and a2:
+                    l1, _, _ = self.block(st.body, env, ind + '  ')
+                    l2, _, _ = self.block(st.orelse, env, ind + '  ')
+                    lines += [ind + f'if {c} then'] + l1 + [ind + 'else'] + l2
+                    return lines, env, True
+                if self._may(st.body) or self._may(st.orelse or []):
+                    # some path returns, some falls through: the rest of the list is absorbed into both branches
+                    l1, _, r1 = self.block(st.body if a1 else st.body + stmts, env, ind + '  ')
+                    l2, _, r2 = self.block((st.orelse or []) if a2 else (st.orelse or []) + stmts, env, ind + '  ')
+                    if not (r1 and r2):
+                        raise Unsupported('statement list may fall off the end')
+                    lines += [ind + f'if {c} then'] + l1 + [ind + 'else'] + l2
+                    return lines, env, True
+                # neither branch returns: bind the tuple of variables the branches may assign
+                names = list(dict.fromkeys(self.assigned_names(st.body) + self.assigned_names(st.orelse or [])))
+                if not names:
+                    continue
+                # element types: from a trial translation of the branches
+                _, e1, _ = self.block_open(st.body, env, ind + '    ')
+                _, e2, _ = self.block_open(st.orelse or [], env, ind + '    ')
+                types = {}
+                for k in names:
+                    ts = {e.get(k, (None, None))[1] for e in (e1, e2, env)} - {None}
+                    mk = mangle(k)
+                    if self.vartypes.get(mk):
+                        jt = self.vartypes[mk]
+                    elif len(ts) == 1:
+                        jt = next(iter(ts))
+                    elif ts <= {INT, OPT, NONE}:
+                        jt = OPT
+                    else:
+                        raise Unsupported(f'join {k} {ts}')
+                    if jt == NONE:
+                        jt = OPT
+                    types[k] = jt
+                    if k in env and env[k][1] != jt:
+                        if {env[k][1], jt} <= {INT, OPT, NONE}:
+                            self.vartypes[mk] = OPT
+                            raise Restart()
                         raise Unsupported(f'branch retype {k}')
-                if r1 and r2 and st.orelse: return lines,env,True
+                    if k not in env:
+                        default = {INT: '0', OPT: 'none', SLICE: 'default', BOOL: 'false'}[jt]
+                        lines.append(ind + f'let {mk} : {jt} := {default}')
+                        env[k] = (mk, jt)
+                        self.vartypes.setdefault(mk, jt)
+
+                def close(e):
+                    parts = []
+                    for k in names:
+                        nm, t = e.get(k, env[k])
+                        parts.append(self.coerce(nm, t, types[k]) if t != types[k] else nm)
+                    return '(' + ', '.join(parts) + ')' if len(parts) > 1 else parts[0]
+                l1, e1, _ = self.block_open(st.body, env, ind + '    ')
+                l2, e2, _ = self.block_open(st.orelse or [], env, ind + '    ')
+                pat = '(' + ', '.join(mangle(k) for k in names) + ')' if len(names) > 1 else mangle(names[0])
+                ty = ' × '.join(types[k] for k in names)
+                lines.append(ind + f'let {pat} : {ty} ← (if {c} then (do')
+                lines += l1 + [ind + '    ' + f'pure {close(e1)})']
+                lines.append(ind + '  else (do')
+                lines += l2 + [ind + '    ' + f'pure {close(e2)}))']
+                for k in names:
+                    env[k] = (mangle(k), types[k])
                 continue
             raise Unsupported(ast.dump(st)[:80])
-        return lines,env,False
-    def excname(self,st):
-        e=st.exc
-        if isinstance(e,ast.Call): e=e.func
-        return e.id if isinstance(e,ast.Name) else 'Exception'
-    def retval(self,v,env,pre):
-        if isinstance(v,ast.Tuple):
-            parts=[]
-            for x in v.elts:
-                s,t=self.expr(x,env,pre)
-                if self.rettype=='OptSlice2': parts.append('(some '+s+')' if t==SLICE else 'none')
-                else: parts.append(s)
-            return '('+', '.join(parts)+')'
-        s,t=self.expr(v,env,pre)
-        if self.rettype==INT and t==OPT:
-            return self.as_int(v,env,pre)
-        return s
-    def translate(self,rettype):
-        while True:
-            try:
-                return self._translate(rettype)
-            except Restart:
-                self.counter=0
+        return lines, env, False
+
+    def block_open(self, stmts, env, ind):
+        """a statement list without return/raise (a fall-through branch): lines + resulting env"""
+        lines, e, r = self.block(stmts, env, ind)
+        if r:
+            raise Unsupported('unexpected return in fall-through branch')
+        return lines, e, r
+
+    def closure(self, fd, env):
+        """nested def without mutation of outer variables -> auxiliary top-level def with captures as params."""
+        free = [k for k in env if any(isinstance(n, ast.Name) and n.id == k for n in ast.walk(fd))]
+        argnames = [a.arg for a in fd.args.args]
+        sig = {}
+        for a in argnames:
+            sig[a] = OPT  # closure parameters: Optional[int] is the only shape used in the whitelist
+        for k in free:
+            if k in argnames:
                 continue
-    def _translate(self,rettype):
-        self.rettype=rettype
-        env={}
-        params=[]
-        for a in self.tree.args.args:
-            t=self.sig[a.arg]; env[a.arg]=(a.arg,t); params.append(f'({a.arg} : {t})')
-        lines,_,ret=self.block(self.tree.body,env,'  ')
-        lt={'OptSlice2':'Option PySlice × Option PySlice'}.get(rettype,rettype)
-        hdr=f'def {self.name} '+' '.join(params)+f' : Except String ({lt}) := do'
-        return '\n'.join([hdr]+lines)
+            sig[k] = env[k][1]
+        lname = f'{self.name}_{fd.name}'
+        src = textwrap.dedent(ast.get_source_segment(self.src, fd))
+        sub = Tr(None, sig, lname, OPT, known=self.known, src=src)
+        sub.extra_params = [k for k in free if k not in argnames]
+        text = sub.translate(param_order=[k for k in free if k not in argnames] + argnames, mutable_params=True)
+        self.aux.append(text)
+        caps = [k for k in free if k not in argnames]
+        self.known[fd.name] = (lname + ''.join(' ' + env[k][0] for k in caps), [OPT] * len(argnames), OPT)
 
-PRELUDE='''-- generated: do not edit
-structure PySlice where
-  start : Option Int
-  stop : Option Int
-  step : Option Int
-deriving Repr, BEq, DecidableEq, Inhabited
+    def retval(self, v, env, pre):
+        if isinstance(v, ast.Tuple):
+            parts = []
+            for x in v.elts:
+                s, t = self.expr(x, env, pre)
+                if self.rettype == 'OptSlice2':
+                    parts.append('(some ' + s + ')' if t == SLICE else 'none')
+                else:
+                    parts.append(s)
+            return '(' + ', '.join(parts) + ')'
+        s, t = self.expr(v, env, pre)
+        if self.rettype == INT and t in (OPT, NONE):
+            return self.as_int(v, env, pre)
+        if self.rettype == OPT:
+            return self.coerce(s, t, OPT)
+        return s
 
-def getI : Option Int → Except String Int
-  | some v => pure v
-  | none => throw "TypeError"
-def floorDiv (a b : Int) : Except String Int := if b == 0 then throw "ZeroDivisionError" else pure (Int.fdiv a b)
-def ceilDiv (a b : Int) : Except String Int := if b == 0 then throw "ZeroDivisionError" else pure (-(Int.fdiv (-a) b))
-def truncDiv (a b : Int) : Except String Int := if b == 0 then throw "ZeroDivisionError" else pure (Int.tdiv a b)
-namespace Gen
-'''
-if __name__=='__main__':
-    from sarpy.io.general import format_function as ff, data_segment as ds, slice_parsing as sp
-    out=[PRELUDE]
-    jobs=[(ff.reformat_slice,{'sl_in':SLICE,'limit_in':INT,'mirror':BOOL},'reformat_slice',SLICE),
-          (sp.get_slice_result_size,{'slice_in':SLICE},'get_slice_result_size',INT),
-          (ds._reverse_slice,{'slice_in':SLICE},'reverse_slice',SLICE),
-          (ds._find_slice_overlap,{'slice_in':SLICE,'ref_slice':SLICE},'find_slice_overlap','OptSlice2')]
-    for fn,sig,name,rt in jobs:
-        try:
-            out.append(Tr(fn,sig,name).translate(rt)); out.append('')
-        except Unsupported as e:
-            out.append(f'-- UNSUPPORTED {name}: {e}\n'); print('UNSUPPORTED',name,e,file=sys.stderr)
-    out.append('end Gen')
-    open('Gen.lean','w').write('\n'.join(out))
+    def translate(self, param_order=None, mutable_params=False):
+        for _ in range(32):
+            try:
+                return self._translate(param_order, mutable_params)
+            except Restart:
+                self.counter = 0
+                self.aux = []
+                self.narrowed = set()
+                continue
+        raise Unsupported('type inference did not converge')
+
+    def _translate(self, param_order, mutable_params):
+        env = {}
+        params = []
+        order = param_order or [a.arg for a in self.tree.args.args]
+        for a in order:
+            t = self.sig[a]
+            env[a] = (mangle(a), t)
+            params.append(f'({mangle(a)} : {t})')
+        pre_lines = []
+        assigned = set(self.assigned_names(self.tree.body))
+        for a in order:
+            if a in assigned:
+                self.vartypes.setdefault(mangle(a), self.sig[a])
+        lines, _, ret = self.block(self.tree.body, env, '  ')
+        if not ret:
+            raise Unsupported('function may fall off the end')
+        lt = {'OptSlice2': 'Option PySlice × Option PySlice'}.get(self.rettype, self.rettype)
+        hdr = f'def {self.name} ' + ' '.join(params) + f' : Except String ({lt}) := do'
+        return '\n\n'.join(self.aux + ['\n'.join([hdr] + pre_lines + lines)])
+
+
+def source_hash(fn):
+    return hashlib.sha256(textwrap.dedent(inspect.getsource(fn)).encode()).hexdigest()[:16]
